@@ -228,6 +228,54 @@ def E2() -> bool:
     return run(body_E2, "X", {})
 
 
+# -- E4: failures of two threads' messages at the same time ----------------------------------
+def body_E4(ctx):
+    from engine.sched import Sched, Deadlock
+
+    sh = ctx.shard
+    healthy = []
+    which_fail = [ctx.flag("flaky fails on thread %d's message" % t) for t in range(2)]
+
+    def flaky(m):
+        if m.get("message_type") == "t:thread" and which_fail[m["t"]]:
+            raise Boom("flaky on %d" % m["t"])
+
+    def slow(m):
+        # an ordinary second destination; being in _output-unrelated code it runs atomically,
+        # the interleaving happens between the lines of Destinations.send around it
+        pass
+
+    Logger._destinations.add(flaky, slow, healthy.append)
+    sched = Sched(ctx, watch={_output.__file__: {"send", "write"}}, preemptions=sh.get("P", 2))
+    for t in range(2):
+        sched.spawn((lambda t=t: log_message("t:thread", t=t)), "T%d" % t)
+    try:
+        sched.run()
+    except Deadlock as e:
+        ctx.fail(str(e))
+    for w in sched.workers:
+        ctx.check(w.exc is None, "logging thread died with %r", w.exc)
+    originals = sorted(m["t"] for m in healthy if m.get("message_type") == "t:thread")
+    ctx.check(originals == [0, 1], "healthy destination saw the originals %r", originals)
+    reports = [m for m in healthy if m.get("message_type") == "eliot:destination_failure"]
+    expected = sum(1 for f in which_fail if f)
+    ctx.check(len(reports) == expected, "%d destination failures happened, %d eliot:destination_failure reports reached the healthy destination (schedule %s)", expected, len(reports), sched.render())
+    for t in range(2):
+        if which_fail[t]:
+            ctx.check(any(r["reason"] == "flaky on %d" % t for r in reports), "no report about thread %d's message", t)
+    if expected == 2 and sched.switches >= 2:
+        ctx.nontrivial(tuple(ctx.trace))
+        ctx.reached("both-fail-interleaved")
+    ctx.sample({"failing": which_fail, "reports": len(reports), "schedule": sched.render(10)})
+
+
+def E4() -> bool:
+    """
+    post: _
+    """
+    return run(body_E4, "X", {})
+
+
 # (A Mode S lemma "healthy copy has x == v for every int v while another destination raises"
 # was tried and is inconclusive: rendering the affected message for the report calls repr()
 # on the symbolic value, which realises it - 752 paths in 120 s without exhausting.)
@@ -253,5 +301,7 @@ OBLIGATIONS = [
     ),
     Ob("E3", E3, body_E3, "X", desc="failures while the start-up buffer is re-delivered by add_destinations (inside or outside an action): one report per failure, same sequence for every destination", functions=["Destinations.add", "Destinations.send (logger=None)", "log_message", "Action.log"],
        twin=[{"F": 2, "twin_label": "failed-redelivery-inside-action"}], timeout={"quick": 100, "thorough": 300}, bounds={"quick": "1-2 buffered messages, 1-2 destinations, add_destinations inside/outside an action, <= 2 failing calls anywhere"}),
+    Ob("E4", E4, body_E4, "X", desc="two threads log at once and a destination fails on either/both messages: one report per failure under every interleaving of Destinations.send", functions=["Destinations.send", "Logger.write", "log_message"],
+       shards=lambda tier: [dict({"P": 1 if tier == "quick" else 2}, prefix=p) for p in enumerate_prefixes(body_E4, "X", {}, {"P": 1 if tier == "quick" else 2}, 5 if tier == "quick" else 7)], twin=[{"P": 1, "twin_label": "both-fail-interleaved"}], timeout={"quick": 100, "thorough": 900}, bounds={"quick": "2 threads x 1 message, 3 destinations, <= 1 preemption (plus forced switches) at line granularity in Destinations.send/Logger.write", "thorough": "<= 2 preemptions"}),
     Ob("E2", E2, body_E2, "X", desc="permanently broken destinations: one report per original message per broken destination, recursion depth 1", functions=["Destinations.send"], timeout={"quick": 60, "thorough": 60}, bounds={"quick": "1-2 always-failing destinations, 1-3 messages"}),
 ]
